@@ -37,6 +37,57 @@ class Budget(Exception):
     pass
 
 
+def make_nested(dims, fill):
+    if not dims:
+        return fill
+    return [make_nested(dims[1:], fill) for _ in range(dims[0])]
+
+
+def mark(val):
+    """Every element of an input/output signal depends on an exported signal."""
+    if isinstance(val, list):
+        return [mark(v) for v in val]
+    return (val[0], True)
+
+
+def leaf(val):
+    while isinstance(val, list):
+        val = val[0] if val else (0, False)
+    return val
+
+
+def get_nested(val, idx):
+    """Element at the index list; out of range reads yield 0 (totalised)."""
+    for k in idx:
+        if isinstance(val, list):
+            if k < len(val):
+                val = val[k]
+            else:
+                return (0, False)
+    return leaf(val)
+
+
+def set_nested(val, idx, new):
+    """Copy of val with the element at idx replaced; an out-of-range write is dropped."""
+    if not idx or not isinstance(val, list):
+        return new if not isinstance(val, list) else val
+    k = idx[0]
+    if k >= len(val):
+        return val
+    out = list(val)
+    out[k] = set_nested(val[k], idx[1:], new)
+    return out
+
+
+def fill_nested(dims, flat, pos=0):
+    """Nested list of the given dimensions filled row-major from flat values (missing -> 0)."""
+    if not dims:
+        v = flat[pos[0]] if pos[0] < len(flat) else 0
+        pos[0] += 1
+        return (v % P, True)
+    return [fill_nested(dims[1:], flat, pos) for _ in range(dims[0])]
+
+
 def sgn(v):
     return v - P if v > HALF else v
 
@@ -115,9 +166,7 @@ class Run:
         if n in self.sig:
             kind, val = self.sig[n]
             if kind != "mid":
-                if isinstance(val, list):
-                    return [(v, True) for v, _ in val]
-                return (val[0], True)
+                return mark(val)
             return val
         return (0, False)
 
@@ -127,10 +176,7 @@ class Run:
         if t == "num":
             return (e[1] % P, False)
         if t == "var":
-            v = self.read(e[1])
-            if isinstance(v, list):
-                # whole array used as a scalar: not generated; totalised
-                v = v[0] if v else (0, False)
+            v = leaf(self.read(e[1]))      # a whole array used as a scalar is not generated; totalised
             if leaves is not None:
                 leaves.append(v[0])
             return v
@@ -142,11 +188,7 @@ class Run:
                 iv, idd = self.ev(i, leaves)
                 d = d or idd
                 idx.append(iv)
-            if isinstance(arr, list):
-                k = idx[0]
-                v = arr[k] if k < len(arr) else (0, False)
-            else:
-                v = arr
+            v = get_nested(arr, idx)
             if leaves is not None:
                 leaves.append(v[0])
             return (v[0], v[1] or d)
@@ -181,7 +223,7 @@ class Run:
         if ds:
             vals = tuple(self.ev(d, None)[0] for d in ds)
             self.events.append(("dim", st[-1]["id"], vals))
-            return min(vals[0], 16)
+            return [min(v, 16) for v in vals]
         return None
 
     def tick(self):
@@ -213,18 +255,16 @@ class Run:
         if t == "decl":
             ln = self.dims(st, st[2])
             if ln is not None:
-                val = [(0, False)] * ln
-                if st[3] is not None:
+                val = make_nested(ln, (0, False))
+                if st[3] is not None and len(ln) == 1:
                     init = self.ev(st[3], None)
                     if isinstance(init, list):
                         init = self.stored(st, init)
-                        val = (init + val)[:ln] if len(init) < ln else init[:ln]
-                self.scopes[-1][st[1]] = list(val)
+                        val = (init + val)[:ln[0]] if len(init) < ln[0] else init[:ln[0]]
+                self.scopes[-1][st[1]] = val
             else:
                 if st[3] is not None:
-                    v = self.ev(st[3], None)
-                    if isinstance(v, list):
-                        v = v[0] if v else (0, False)
+                    v = leaf(self.ev(st[3], None))
                     self.scopes[-1][st[1]] = self.stored(st, v)
                 else:
                     self.scopes[-1][st[1]] = (0, False)
@@ -233,13 +273,10 @@ class Run:
             kind, name = st[1], st[2]
             if kind == "input":
                 iv = self.inputs.get(name, 0)
-                if ln is not None:
-                    iv = iv if isinstance(iv, list) else [iv]
-                    val = [((iv[k] if k < len(iv) else 0) % P, True) for k in range(ln)]
-                else:
-                    val = ((iv[0] if isinstance(iv, list) else iv) % P, True)
+                iv = iv if isinstance(iv, list) else [iv]
+                val = fill_nested(ln or [], iv, [0])
             else:
-                val = [(0, False)] * ln if ln is not None else (0, False)
+                val = make_nested(ln or [], (0, False))
             self.sig[name] = (kind, val)
         elif t == "assign" or t == "incr":
             name = st[1]
@@ -251,46 +288,39 @@ class Run:
                 idx, op, rhs = [], "+=" if st[2] == "++" else "-=", (1, False)
             else:
                 idx, op = st[2], st[3]
-                rhs = self.ev(st[4], None)
-                if isinstance(rhs, list):
-                    rhs = rhs[0] if rhs else (0, False)
+                rhs = leaf(self.ev(st[4], None))
             cur = sc[name]
             if idx:
-                iv = self.ev(idx[0], None)
+                ivs = [self.ev(i, None) for i in idx]
+                ks = [v[0] for v in ivs]
+                idep = any(v[1] for v in ivs)
                 if not isinstance(cur, list):
                     cur = [cur]
-                k = iv[0]
-                old = cur[k] if k < len(cur) else (0, False)
+                old = get_nested(cur, ks)
             else:
-                old = cur if not isinstance(cur, list) else (cur[0] if cur else (0, False))
+                old = leaf(cur)
             if op == "=":
                 new = rhs
             else:
                 new = (binop(op[0], old[0], rhs[0]), old[1] or rhs[1])
             new = self.stored(st, new)
             if idx:
-                new = (new[0], new[1] or iv[1])
-                if k < len(cur):
-                    cur = list(cur)
-                    cur[k] = new
-                sc[name] = cur
+                new = (new[0], new[1] or idep)
+                sc[name] = set_nested(cur, ks, new)
             else:
                 sc[name] = new
         elif t == "sigassign":
             name, idx, op = st[1], st[2], st[3]
             leaves = []
-            rhs = self.ev(st[4], leaves)
-            if isinstance(rhs, list):
-                rhs = rhs[0] if rhs else (0, False)
+            rhs = leaf(self.ev(st[4], leaves))
             kind, cur = self.sig.get(name, ("mid", (0, False)))
             ivs = ()
             if idx:
-                iv = self.ev(idx[0], leaves)
-                ivs = (iv[0],)
-                rhs = (rhs[0], rhs[1] or iv[1])
-                if isinstance(cur, list) and iv[0] < len(cur):
-                    cur = list(cur)
-                    cur[iv[0]] = rhs
+                ivl = [self.ev(i, leaves) for i in idx]
+                ivs = tuple(v[0] for v in ivl)
+                rhs = (rhs[0], rhs[1] or any(v[1] for v in ivl))
+                if isinstance(cur, list):
+                    cur = set_nested(cur, list(ivs), rhs)
             else:
                 cur = rhs
             self.sig[name] = (kind, cur)
@@ -309,9 +339,7 @@ class Run:
         elif t == "log":
             self.ev(st[1], None)
         elif t == "return":
-            v = self.ev(st[1], None)
-            if isinstance(v, list):
-                v = v[0] if v else (0, False)
+            v = leaf(self.ev(st[1], None))
             self.events.append(("ret", v[0]))
             raise Stop()
         elif t == "if":
@@ -389,16 +417,21 @@ def find_signal_assignments(prog, name, start, end):
 def valuations(prog, rng, n):
     """n valuations of parameters and input signals: small values (parameters bound loops and
     dimensions), the first ones systematic."""
+    def size(ln):
+        n = 1
+        for d in ([] if ln is None else ([ln] if isinstance(ln, int) else list(ln))):
+            n *= d
+        return n
     vals = []
     small = [0, 1, 2, 3]
     sigv = [0, 1, 2, 3, 5, P - 1, 7, 1 << 20]
     for k in range(n):
         if k < 4:
             params = dict((p, small[(k + j) % 4]) for j, p in enumerate(prog["params"]))
-            inputs = dict((s, [sigv[(k + j + q) % 4] for q in range(ln or 1)]) for j, (s, ln) in enumerate(prog["sig_in"]))
+            inputs = dict((s, [sigv[(k + j + q) % 4] for q in range(size(ln))]) for j, (s, ln) in enumerate(prog["sig_in"]))
         else:
             params = dict((p, rng.choice(small)) for p in prog["params"])
-            inputs = dict((s, [rng.choice(sigv) for _ in range(ln or 1)]) for s, ln in prog["sig_in"])
+            inputs = dict((s, [rng.choice(sigv) for _ in range(size(ln))]) for s, ln in prog["sig_in"])
         vals.append((params, inputs))
     return vals
 
